@@ -12,6 +12,9 @@ EVIDENCE = dict(assumptions=[
 
 def run(S):
     D = S.decls()
+    from .C01 import dust_exposure_limit, check_truth_table
+    check_truth_table(S)
+    dust_exposure_limit(S, D, 1 if S.tier == 'quick' else 2, 'C02.d')
     E = S.engine()
     f = S.fn('internal_htlc_satisfies_config')
     mem = {}
